@@ -34,6 +34,7 @@ import (
 	"os"
 	"reflect"
 	"strings"
+	"syscall"
 	"time"
 
 	"github.com/buzzfeed/sso/internal/auth"
@@ -830,6 +831,19 @@ func (w *world) holeCase(h holeSpec, payload, got string) {
 
 // ---------------------------------------------------------------------------------------------
 
+// refusingAddr reserves a loopback port that refuses connections for the life of the process: the socket is
+// bound but never listens (Linux answers RST), and stays open so that no concurrent process can be handed
+// the port (a listen-then-close port was once reused by another driver under load: a "502 expected" site
+// then answered something else and the run ended as a model difference on the unchanged tree)
+func refusingAddr() string {
+	fd, err := syscall.Socket(syscall.AF_INET, syscall.SOCK_STREAM, 0)
+	c.Must(err)
+	c.Must(syscall.Bind(fd, &syscall.SockaddrInet4{Port: 0, Addr: [4]byte{127, 0, 0, 1}}))
+	sa, err := syscall.Getsockname(fd)
+	c.Must(err)
+	return fmt.Sprintf("127.0.0.1:%d", sa.(*syscall.SockaddrInet4).Port)
+}
+
 func main() {
 	a := c.ParseArgs()
 	c.Quiet()
@@ -846,10 +860,7 @@ func main() {
 	defer fake.Srv.Close()
 	defer closeWires()
 	// an upstream address nobody listens on (connection refused)
-	cl, err := net.Listen("tcp", "127.0.0.1:0")
-	c.Must(err)
-	closedAddr := cl.Addr().String()
-	cl.Close()
+	closedAddr := refusingAddr()
 	// two upstreams, configured in an order that depends on the seed (order effects of
 	// SetUpstreamConfigs / proxy.New: every upstream is checked, not only the last)
 	up := func(svc, host string) string {
